@@ -1054,6 +1054,62 @@ class Normaliser:
             return None
         return (t["dest"], t["target"], parts[1].strip(), blk["tspan"])
 
+    # reviewed one-line wrappers that a refactoring may write out at their call site: (wrapper, outer call, inner call)
+    REFOLD = [("crypto::sha256_hex", r"^hex::encode$", r"^crypto::sha256$")]
+
+    def refold(self, bodies):
+        """`hex::encode(sha256(x))` written out where the reviewed tree calls `sha256_hex(x)` (the wrapper was inlined by
+        hand and removed): fold the two calls back into one call of the wrapper, so that the rules anchored on the
+        wrapper's call sites keep seeing them. Only when the wrapper no longer exists; the count is recorded."""
+        done = {}
+        have = {b["path"] for b in bodies}
+        for wrapper, outer, inner in self.REFOLD:
+            if wrapper in have:
+                continue
+            n = 0
+            for jb in bodies:
+                blocks = jb.get("blocks") or []
+                for blk in blocks:
+                    t = blk.get("term") or {}
+                    if t.get("k") != "call" or not re.search(outer, t.get("callee", "")) or not t.get("args"):
+                        continue
+                    pl0 = op_place_local(t["args"][0])
+                    l = pl0["local"] if pl0 and not pl0["proj"] else None
+                    if l is None:
+                        continue
+                    # follow plain moves / re-borrows back to the producing call
+                    src = None
+                    for _ in range(6):
+                        prod = [b2 for b2 in blocks if (b2.get("term") or {}).get("k") == "call" and ((b2["term"].get("dest") or {}).get("local") == l) and not (b2["term"].get("dest") or {}).get("proj")]
+                        if prod:
+                            src = prod[0]
+                            break
+                        asg = [st for b2 in blocks for st in b2.get("stmts", []) if st.get("k") == "assign" and st["place"]["local"] == l and not st["place"]["proj"]]
+                        if len(asg) != 1:
+                            break
+                        rv = asg[0]["rv"]
+                        if rv["k"] == "use":
+                            pl1 = op_place_local(rv["op"])
+                            l = pl1["local"] if pl1 and not pl1["proj"] else None
+                        elif rv["k"] == "ref" and not rv.get("mut") and not [e for e in rv["place"]["proj"] if e != "deref"]:
+                            l = rv["place"]["local"]
+                        else:
+                            break
+                        if l is None:
+                            break
+                    if src is None or not re.search(inner, src["term"].get("callee", "")):
+                        continue
+                    t["callee"] = wrapper
+                    t["resolved"] = wrapper
+                    t["resolved_full"] = wrapper
+                    t["args"] = list(src["term"]["args"])
+                    t["refolded"] = True
+                    src["term"] = {"k": "goto", "target": src["term"].get("target"), "span": src["term"].get("span")}
+                    n += 1
+            if n:
+                done[wrapper] = n
+        return done
+
     def run(self):
         out = []
         for b in self.fj["bodies"]:
@@ -1076,6 +1132,7 @@ class Normaliser:
                 vis = j.get("vis", "")
                 if "Public" not in vis:
                     j["absorbed"] = True
+        self.fj["refolded"] = self.refold(out)
         self.fj["bodies"] = out
         self.fj["normalisation"] = self.stats
         self.fj["moved"] = self.moved
